@@ -1374,6 +1374,29 @@ func ruleInitDefault(c *Ctx) []Ob {
 		}
 		s.check(good, "top-level", c.Pos(root.Pos()), "reflect.Decode hands the user's pointer straight to (*tDecoder).Decode", "reflect.Decode passes the user's object to "+what+" / calls InitDefault: the top-level destination would be re-initialised and fields absent from the message overwritten")
 	}
+	// every other call of the struct decoder is the tail call of the struct case: a container fast path that decodes its
+	// struct elements by calling the struct decoder directly gives them no declared defaults
+	entry := c.Func(pkgReflect, "Decode")
+	for _, fn := range c.ModuleFuncs(pkgReflect) {
+		if fn == entry {
+			continue
+		}
+		for _, b := range fn.Blocks {
+			for _, ins := range b.Instrs {
+				call, ok := ins.(*ssa.Call)
+				if !ok || call.Call.StaticCallee() != dec || call == tail {
+					continue
+				}
+				// further calls inside the struct case itself (both edges of hasInitFunc written as two calls) are judged above
+				if fn == dt {
+					if cs, _ := caseSet(b, ".T"); len(cs) == 1 && cs[0] == k.byName["STRUCT"] {
+						continue
+					}
+				}
+				s.bad(shortFn(fn)+":nested-decode", c.InstrPos(call), "the struct decoder is called for a nested struct outside the struct case of the value decoder: these structs (elements of a list, set or map, say) do not get their declared defaults before they are decoded, while struct fields do")
+			}
+		}
+	}
 	return s.obs
 }
 
@@ -1426,7 +1449,78 @@ func ruleNarrowOverflow(c *Ctx) []Ob {
 			}
 		}
 	}
-	s.ok("scan", "-", fmt.Sprintf("sub-word arithmetic scanned in the codec packages; %d results feed a size, index or widening conversion", n))
+	// positions and counts (a loop counter, a range index, a length) narrowed below 32 bits and kept in descriptor state or a
+	// table: they wrap for large structs (an index table of int16 turns positions above 32767 negative, i.e. "no such field")
+	isCount := func(v ssa.Value) bool {
+		seen := map[ssa.Value]bool{}
+		var walk func(v ssa.Value, d int) bool
+		walk = func(v ssa.Value, d int) bool {
+			if v == nil || seen[v] || d > 6 {
+				return false
+			}
+			seen[v] = true
+			switch x := v.(type) {
+			case *ssa.Phi:
+				// a counter: a phi with a back edge that adds to itself
+				for _, e := range x.Edges {
+					if bo, ok := e.(*ssa.BinOp); ok && bo.Op == token.ADD && (bo.X == ssa.Value(x) || bo.Y == ssa.Value(x)) {
+						return true
+					}
+				}
+				for _, e := range x.Edges {
+					if walk(e, d+1) {
+						return true
+					}
+				}
+			case *ssa.Call:
+				return isBuiltin(x, "len") || isBuiltin(x, "cap")
+			case *ssa.Extract:
+				if _, ok := x.Tuple.(*ssa.Next); ok && x.Index == 1 {
+					return true // range index
+				}
+			case *ssa.BinOp:
+				return walk(x.X, d+1) || walk(x.Y, d+1)
+			case *ssa.Convert:
+				return walk(x.X, d+1)
+			}
+			return false
+		}
+		return walk(v, 0)
+	}
+	for _, fn := range c.ModuleFuncs(pkgReflect) {
+		if fn.Name() == "testhack" {
+			continue
+		}
+		for _, b := range fn.Blocks {
+			for _, ins := range b.Instrs {
+				cv, ok := ins.(*ssa.Convert)
+				if !ok || !isInt(cv.Type()) || !isInt(cv.X.Type()) || c.Sizes.Sizeof(cv.Type()) >= 4 || c.Sizes.Sizeof(cv.X.Type()) <= c.Sizes.Sizeof(cv.Type()) {
+					continue
+				}
+				if !isCount(cv.X) {
+					continue
+				}
+				for _, r := range referrers(cv) {
+					st, ok := r.(*ssa.Store)
+					if !ok || st.Val != ssa.Value(cv) {
+						continue
+					}
+					kept := false
+					switch a := st.Addr.(type) {
+					case *ssa.IndexAddr:
+						kept = true
+					case *ssa.FieldAddr:
+						kept = !localAlloc(a.X)
+					}
+					if kept {
+						n++
+						s.bad(shortFn(fn)+":narrow-count", c.InstrPos(cv), fmt.Sprintf("a position or count is narrowed to %d bits and stored (%s): beyond the type's range it wraps (a negative position reads as no such field), so large structs lose fields silently", c.Sizes.Sizeof(cv.Type())*8, c.srcLine(cv.Pos())))
+					}
+				}
+			}
+		}
+	}
+	s.ok("scan", "-", fmt.Sprintf("sub-word arithmetic and narrowed counts scanned in the codec packages; %d results feed a size, index, widening conversion or table", n))
 	return s.obs
 }
 
